@@ -208,6 +208,10 @@ func (tw *tokenWorld) pickPresentation(ch *kernel.Chooser, target string) presen
 	case x == 11:
 		return presentation{creds: world.Creds{Mode: "id-only", ID: target}, label: "id-only"}
 	case x == 12:
+		if ch.Bool(1, 2) {
+			// names the client and announces an assertion that never comes
+			return presentation{creds: world.Creds{Mode: "assertion-type-only", ID: target}, label: "assertion-type-without-assertion"}
+		}
 		return presentation{creds: world.Creds{Mode: "none"}, label: "none"}
 	case x == 13: // assertion signed with an unrelated key, naming the target
 		p := mkAssertion(w, target, target, "", "", []string{w.Issuer}, now, now.Add(time.Hour))
